@@ -7,10 +7,9 @@ PROP = dict(
               "C04_locates_tx_static", "C04_locates_input_static", "C04_locates_output",
               "C04_none_tx", "C04_none_input", "C04_none_output",
               "C04_locates_sections", "C04_locates_elements", "C04_locates_script",
-              "C04_cached", "C04_locates_body_vectors", "C04_locates_body_vector_starts", "C04_locates_input_dynamic_const"],
+              "C04_cached", "C04_locates_body_vectors", "C04_locates_body_vector_starts", "C04_locates_input_dynamic_const",
+              "C04_locates_input_dynamic_after", "C04_locates_input_dynamic_after_slice"],
     open_statements=[
-        "C04_locates_input_dynamic_after_statement: the two offsets inside an input that come after another byte vector (predicate after message data; predicate data after the predicate) - not proved "
-        "(the generic lemmas locate_fields_dynamic / input_dynamic_at / dyn_small / code_dyn / bytes_dyn of Offsets/OffsetInput.v reduce it to one arithmetic step per variant); executed on every case",
         "C04_predicate_padded_statement: inputs_predicate_offset_at(i) = (position of the predicate bytes, 8-padded length) - not proved; executed on every case and checked on the real code by the oracle",
     ],
     translators=["txconsts", "preparesign"],
@@ -26,7 +25,7 @@ PROP = dict(
     ],
     assumptions=[
         "typed: the value is a value of the Rust type",
-        "C04_locates_sections / _elements / _script and the open statements hold under `encoding at most 2^64-1 bytes long` (the saturating arithmetic of the offset code is modelled; in the saturated regime the offsets are wrong by construction and no encoding of that size exists in memory)",
+        "C04_locates_sections / _elements / _script / _input_dynamic_after and the open statement hold under `encoding at most 2^64-1 bytes long` (the saturating arithmetic of the offset code is modelled; in the saturated regime the offsets are wrong by construction and no encoding of that size exists in memory)",
     ],
     rule=("transactions of all six kinds x four input layouts (the named one: contract input then message-data predicate after a 7-byte script; every input variant once with every output variant; "
           "unaligned predicates 7/3, 9/0, 1/15 with 13-byte data; random 0-4 inputs) with 0-4 outputs, 1-4 witnesses, 0-4 storage slots, 0-5 proof entries, all 64 policy masks, byte-vector lengths "
@@ -42,9 +41,10 @@ PROP = dict(
                 "input / output / witness element offset (Some exactly for indices in range) and the script / script data offsets are proved to be the specification's positions whenever the encoding is "
                 "shorter than 2^64 bytes - the model's saturating sums of size() are shown to be the prefix sums of encoder lengths; (4) storage-slot and proof-entry offsets and the vector starts are proved the same way; (5) offsets "
                 "read from cached metadata equal the offsets computed without it for EVERY function and index, whatever (possibly stale) metadata the transaction carried before precompute - no typing "
-                "hypothesis; (6) inside an input the data / coin-predicate / first-predicate offsets are proved; the two offsets that follow another byte vector and inputs_predicate_offset_at's padded "
-                "length are modelled, executed on every answer, and open."),
-    level_note=("17 theorems proved, Closed under the global context. Open: two statements (predicate-after-data / predicate-data-after-predicate offsets inside an input; inputs_predicate_offset_at with padded length), "
+                "hypothesis; (6) inside an input the data / coin-predicate / first-predicate offsets are proved, and so are the two offsets that follow another byte vector (predicate after message data, "
+                "predicate data after the predicate) whenever the input's encoding is shorter than 2^64 bytes; inputs_predicate_offset_at's padded "
+                "length is modelled, executed on every answer, and open."),
+    level_note=("19 theorems proved, Closed under the global context. Open: one statement (inputs_predicate_offset_at with padded length), "
                 "executed per case and checked on the real code by the oracle, not proved."),
     technique="Coq proof (generic induction over the schema universe; table-vs-schema obligations by computation + value-independence lemma) + translator consts/tables with source pins + differential model/impl run + slice oracle",
     design_ref="6/C04",
